@@ -29,6 +29,8 @@ namespace fsh
         std::vector<char> mask;
         bool base_set = false;
         std::vector<size_type> base;
+        // graphs that run only the operators before a snapshot (C16 oracle side)
+        std::map<std::string, std::unique_ptr<FG>> prefix_graphs;
 
         Session(G& g, std::ostream& o)
             : grid(g)
@@ -383,9 +385,66 @@ namespace fsh
                     os << ' ' << hexd(x);
                 os << "\n";
             }
+            dump_prefixes(elev);
         }
 
-        void call_acc(Line& l, FG& g, const std::string& pre)
+        // For every snapshot operator: a separate graph that runs only the operators before it
+        // (earlier snapshots dropped; a single router appended when the prefix has no router, which
+        // does not edit elevation) on the same inputs.  Printed as pfx:<name>:<section> /
+        // pfxe:<name>; the oracle compares them with the snapshot's own tables.
+        void dump_prefixes(const arr& elev)
+        {
+            prefix_graphs.clear();
+            for (std::size_t k = 0; k < ops.size(); ++k)
+            {
+                auto sp = std::get_if<std::shared_ptr<fs::flow_snapshot>>(&ops[k]);
+                if (!sp)
+                    continue;
+                std::vector<opvar> prefix;
+                bool has_router = false;
+                for (std::size_t j = 0; j < k; ++j)
+                {
+                    if (std::get_if<std::shared_ptr<fs::flow_snapshot>>(&ops[j]))
+                        continue;
+                    if (auto q = std::get_if<std::shared_ptr<fs::single_flow_router>>(&ops[j]))
+                    {
+                        // same kind of router, never the shared object's thread pool
+                        prefix.push_back(std::make_shared<fs::single_flow_router>((*q)->threads_count()));
+                        has_router = true;
+                        continue;
+                    }
+                    if (std::get_if<std::shared_ptr<fs::multi_flow_router>>(&ops[j]))
+                        has_router = true;
+                    prefix.push_back(ops[j]);
+                }
+                if (!has_router)
+                    prefix.push_back(std::make_shared<fs::single_flow_router>());
+                const std::string name = (*sp)->snapshot_name();
+                try
+                {
+                    auto pg = build_graph(prefix);
+                    replicate_inputs(*pg);
+                    const arr& e = pg->update_routes(elev);
+                    if ((*sp)->save_graph())
+                        dump_impl("pfx:" + name + ":", pg->impl());
+                    if ((*sp)->save_elevation())
+                    {
+                        os << "O pfxe:" << name;
+                        for (auto x : e)
+                            os << ' ' << hexd(x);
+                        os << "\n";
+                    }
+                    if ((*sp)->save_graph())
+                        prefix_graphs[name] = std::move(pg);
+                }
+                catch (const std::exception& ex)
+                {
+                    os << "O pfx_err:" << name << ' ' << errkind(ex) << "\n";
+                }
+            }
+        }
+
+        void call_acc(Line& l, FG& g, const std::string& pre, bool echo = true)
         {
             // acc <variant> <s hex | a n hex> ; variant: 0 returning/array, 1 in-place/array,
             // 2 returning/scalar, 3 in-place/scalar.  All four overloads are always run and
@@ -403,13 +462,16 @@ namespace fsh
             else
                 src = l.ndbls(n);
             arr s = make_arr(src);
-            os << "I " << pre << "src";
-            for (auto x : src)
-                os << ' ' << hexd(x);
+            if (echo)
+            {
+                os << "I " << pre << "src";
+                for (auto x : src)
+                    os << ' ' << hexd(x);
             os << "\nI " << pre << "area";
             for (size_type i = 0; i < n; ++i)
                 os << ' ' << hexd(grid.nodes_areas(i));
             os << "\n";
+            }
             arr a0 = g.accumulate(s);
             arr a1 = make_arr(std::vector<double>(n, -7.0));
             g.accumulate(a1, s);
@@ -658,10 +720,20 @@ namespace fsh
                 std::string what = l.next();
                 auto& sg = graph->graph_snapshot(name);
                 std::string pre = "snap:" + name + ":";
+                auto pit = prefix_graphs.find(name);
                 if (what == "acc")
+                {
+                    Line l2 = l;
                     call_acc(l, sg, pre);
+                    if (pit != prefix_graphs.end())
+                        call_acc(l2, *pit->second, "pfx:" + name + ":", false);
+                }
                 else if (what == "basins")
+                {
                     call_basins(sg, pre);
+                    if (pit != prefix_graphs.end())
+                        call_basins(*pit->second, "pfx:" + name + ":");
+                }
                 else if (what == "set_mask")
                     call_set_mask(l, sg, false);
                 else if (what == "set_base")
@@ -692,9 +764,19 @@ namespace fsh
                 os << ' ' << x;
             os << "\n";
         }
+        else if (kind == "so")
+        {
+            // out-parameter overload with a vector that is reused from query to query
+            static typename G::neighbors_type reused;
+            grid.neighbors(i, reused);
+            os << "O q so " << i;
+            for (auto& nb : reused)
+                os << ' ' << nb.idx << ' ' << hexd(nb.distance) << ' ' << st_int(nb.status);
+            os << "\n";
+        }
         else if (kind == "ib")
         {
-            typename G::neighbors_indices_type buf;
+            static typename G::neighbors_indices_type buf;
             os << "O q ib " << i;
             for (auto x : grid.neighbors_indices(i, buf))
                 os << ' ' << x;
